@@ -146,13 +146,14 @@ def main():
                     load_errors.append("shard failed rc=%d: %s" % (rc, err.strip()[-300:]))
 
         # ---- counterexamples: replay ----
-        os.makedirs(os.path.join(VERIF, "replays"), exist_ok=True)
+        repdir = os.environ.get("VERIF_REPLAY_DIR", os.path.join(VERIF, "replays"))
+        os.makedirs(repdir, exist_ok=True)
         violations = []   # reproduced
         unconfirmed = []
         by_group = {}
         for ro in runs:
             for k, c in enumerate(ro.get("counterexamples") or []):
-                p = os.path.join(VERIF, "replays", "%s-%s-%d.json" % (a.prop, ro["harness"], k))
+                p = os.path.join(repdir, "%s-%s-%d.json" % (a.prop, ro["harness"], k))
                 json.dump(c, open(p, "w"), indent=1)
                 by_group.setdefault(id(ro["_group"]), (ro["_group"], []))[1].append((p, c))
         for _, (g, cexs) in by_group.items():
@@ -250,8 +251,9 @@ def main():
             },
             "assumptions": spec.get("assumptions", []),
         }
-        os.makedirs(os.path.join(VERIF, "evidence"), exist_ok=True)
-        json.dump(ev, open(os.path.join(VERIF, "evidence", a.prop + ".json"), "w"), indent=1)
+        evdir = os.environ.get("VERIF_EVIDENCE_DIR", os.path.join(VERIF, "evidence"))
+        os.makedirs(evdir, exist_ok=True)
+        json.dump(ev, open(os.path.join(evdir, a.prop + ".json"), "w"), indent=1)
         for l in sorted(set(kf_lines)):
             print(l)
         for p, c, oc in unconfirmed:
